@@ -23,14 +23,14 @@ RULE = ("host programs (hand-written position catalogue + seeded generated progr
         "break/continue/return placements and a second star in every target pattern (reference: CPython's compile "
         "refuses). Distinct by (construct, position kind, host, options); every case is non-trivial. Last sentence of the "
         "property (nothing with a run-time effect is discarded): a trace monitor - `mark(n)` before every statement and at "
-        "the end of every block of hand-written loop-else / dead-tail idioms and of 1500 (thorough: 12000) generated "
+        "the end of every block of hand-written loop-else / dead-tail idioms and of 1500 (thorough: 6000) generated "
         "clean-pool programs; the marker sequence of the translation must equal the original's.")
 ASSUMPTIONS = ["the independent walker (lib/olverif/unsupported.py) defines 'unsupported' exactly as the README list + the four illegal placements",
                "any exception raised by the conversion counts as rejection"]
 EXHAUSTIVE = {"quick": False, "thorough": False}
 FLOOR = {"quick": 5000, "thorough": 50000}
 REQUIRED_MONITORS = ["C08.rejects-unsupported"]
-SIZES = {"quick": dict(gen_hosts=8, maxpos=20, mark_gen=1500), "thorough": dict(gen_hosts=150, maxpos=None, mark_gen=12000)}
+SIZES = {"quick": dict(gen_hosts=8, maxpos=20, mark_gen=1500), "thorough": dict(gen_hosts=90, maxpos=None, mark_gen=6000)}
 
 HOSTS = {
     "positions": '''x = 1
